@@ -90,6 +90,10 @@ def clause_a(ctx: Context, idx, res) -> None:
         nonlocal n
         n += 1
         before = len(an.issues)
+        ps_ = [p_ for p_ in fn.params() if p_ not in ("self", "cls")]
+        if not set(args) <= set(ps_) and len(ps_) == len(args):
+            # the abstract arguments are listed in the order of the signature: a renamed parameter is bound by its position
+            args = dict(zip(ps_, args.values()))
         r = an.call_function(fn, args)
         key = f"{fn.qualname}|{label}"
         where = f"{ctx.relpath(fn.file)}:{fn.line}"
